@@ -11,6 +11,7 @@ import (
 	"verif/model"
 	"verif/runner"
 	"verif/smfdec"
+	"verif/theory"
 )
 
 // writeOpts selects the I/O path of a `crd write` run.
@@ -449,4 +450,50 @@ func readFileOrNil(p string) []byte {
 		return nil
 	}
 	return b
+}
+
+// collisionPiece builds a document in which different chords spell the same digits when their degree, symbol
+// and bass are run together: degree 17 with the plain triad and degree 1 with "7", 16 / 1+"6", 19 / 1+"9",
+// 27 / 2+"7", "1"+"7"+bass 5 against "17" with bass 5, ... in both orders, interleaved with other chords.
+func collisionPiece(r *rand.Rand) model.Piece {
+	P := func(n int) theory.Interval {
+		q := theory.Major
+		if k := (n - 1) % 7; k == 0 || k == 3 || k == 4 {
+			q = theory.Perfect
+		}
+		return theory.Interval{N: n, Q: q}
+	}
+	type pr struct {
+		a, b model.ChordSpec
+	}
+	five := P(5)
+	pairs := []pr{
+		{model.ChordSpec{Deg: P(17), Symbol: ""}, model.ChordSpec{Deg: P(1), Symbol: "7"}},
+		{model.ChordSpec{Deg: P(16), Symbol: ""}, model.ChordSpec{Deg: P(1), Symbol: "6"}},
+		{model.ChordSpec{Deg: P(19), Symbol: ""}, model.ChordSpec{Deg: P(1), Symbol: "9"}},
+		{model.ChordSpec{Deg: P(27), Symbol: ""}, model.ChordSpec{Deg: P(2), Symbol: "7"}},
+		{model.ChordSpec{Deg: P(26), Symbol: ""}, model.ChordSpec{Deg: P(2), Symbol: "6"}},
+		{model.ChordSpec{Deg: P(17), Symbol: "", Bass: &five}, model.ChordSpec{Deg: P(1), Symbol: "7", Bass: &five}},
+		{model.ChordSpec{Deg: P(17), Symbol: "sus4"}, model.ChordSpec{Deg: P(1), Symbol: "7sus4"}},
+		{model.ChordSpec{Deg: P(1), Symbol: "m7"}, model.ChordSpec{Deg: P(1), Symbol: "MinorSeventh"}}, // one chord, two spellings
+		{model.ChordSpec{Deg: P(1), Symbol: "m"}, model.ChordSpec{Deg: P(1), Symbol: "m7"}},
+	}
+	var p model.Piece
+	for k := 1 + r.Intn(3); k > 0; k-- {
+		x := pairs[r.Intn(len(pairs))]
+		a, b := x.a, x.b
+		if r.Intn(2) == 0 {
+			a, b = b, a
+		}
+		p.Inst = append(p.Inst, model.Instance{Chord: &a, Values: one()})
+		if r.Intn(2) == 0 {
+			p.Inst = append(p.Inst, model.Instance{Chord: &model.ChordSpec{Deg: P(1 + r.Intn(7)), Symbol: "m7"}, Values: one()})
+		}
+		p.Inst = append(p.Inst, model.Instance{Chord: &b, Values: one()})
+		if r.Intn(3) == 0 {
+			a2 := a
+			p.Inst = append(p.Inst, model.Instance{Chord: &a2, Values: one()})
+		}
+	}
+	return p
 }
